@@ -99,7 +99,7 @@ def asdict(
                     if not issubclass(cf, tuple):
                         raise
                     # Workaround for TypeError: cf.__new__() missing 1 required
-                    # positional argument (which appears, for a namedturle)
+                    # positional argument (which appears, for a namedtuple)
                     rv[a.name] = cf(*items)
             elif isinstance(v, dict):
                 df = dict_factory
@@ -160,19 +160,25 @@ def _asdict_anything(
         else:
             cf = list
 
-        rv = cf(
-            [
-                _asdict_anything(
-                    i,
-                    is_key=False,
-                    filter=filter,
-                    dict_factory=dict_factory,
-                    retain_collection_types=retain_collection_types,
-                    value_serializer=value_serializer,
-                )
-                for i in val
-            ]
-        )
+        items = [
+            _asdict_anything(
+                i,
+                is_key=False,
+                filter=filter,
+                dict_factory=dict_factory,
+                retain_collection_types=retain_collection_types,
+                value_serializer=value_serializer,
+            )
+            for i in val
+        ]
+        try:
+            rv = cf(items)
+        except TypeError:
+            if not issubclass(cf, tuple):
+                raise
+            # Workaround for TypeError: cf.__new__() missing 1 required
+            # positional argument (which appears, for a namedtuple)
+            rv = cf(*items)
     elif isinstance(val, dict):
         df = dict_factory
         rv = df(
@@ -286,7 +292,7 @@ def astuple(
                     if not issubclass(cf, tuple):
                         raise
                     # Workaround for TypeError: cf.__new__() missing 1 required
-                    # positional argument (which appears, for a namedturle)
+                    # positional argument (which appears, for a namedtuple)
                     rv.append(cf(*items))
             elif isinstance(v, dict):
                 df = v.__class__ if retain is True else dict
